@@ -7,7 +7,7 @@ CONSTANTS
   MaxLayers = 3
   MaxLen = 5
   InitBases <- BasesFA
-  ReadAll = TRUE
+  ReadAll = FALSE
   LogViews = FALSE
   Quiet = FALSE
 INIT Init
